@@ -36,10 +36,11 @@ def parseScript (w : String) (self : Nat) : Option (List Act) :=
     | _ => some a
 
 inductive POp where
-  | new (sc : List Act) | api (a : Act) | adv (d : Nat) | bad
+  | new (sc : List Act) | api (a : Act) | adv (d : Nat) | engine (e : String) | bad
 
 def parseOp (s : State) (ws : List String) : POp :=
   match ws with
+  | ["engine", e] => if (e == "epoll" || e == "select") && s.nObjs == 0 then .engine e else .bad
   | ["new", sc] => match parseScript sc s.nObjs with | some l => .new l | none => .bad
   | ["adv", d] => match d.toNat? with | some n => if n ≤ 100000 then .adv n else .bad | none => .bad
   | ["init", j, ms, m] => match parseAct ("i" ++ j ++ ":" ++ ms ++ ":" ++ m) with
@@ -100,6 +101,7 @@ def stepOp (a : TAcc) (line : String) : TAcc :=
   let a := { a with nops := a.nops + 1 }
   match parseOp a.s (words line) with
   | .bad => expectLine a "bad-op" "malformed op"
+  | .engine e => expectLine { a with tags := a.tags ++ [e] } ("P engine=" ++ e) "engine"
   | .new sc =>
       let s' := step a.s (.newObj sc)
       expectLine { a with s := s' } ("P ret=1 en=" ++ bitsOf s') "new"
